@@ -41,6 +41,12 @@ fn fault_name(f: &Fault) -> &'static str {
 /// Run `h` under `fault` and judge it against the fault-free reference.
 pub fn check_one(h: &History, fault: &Fault, r: &Reference, obs: &mut Obs) -> Vec<Violation> {
     let mut out = Vec::new();
+    // the caller keeps trying after the first finish: once in place, once through the consuming
+    // flush alias (every attempt after a failure must report the failure and write nothing)
+    let mut h2 = h.clone();
+    h2.ops.push(Op::Finish(FinishKind::InPlace));
+    h2.ops.push(Op::Finish(FinishKind::Flush));
+    let h = &h2;
     let (ex, sink) = run_fault(h, &ExecOpts::default(), fault.clone());
     let fname = fault_name(fault);
     if let Some((i, Res::Panic { msg, loc })) = ex.first_panic() {
@@ -60,6 +66,17 @@ pub fn check_one(h: &History, fault: &Fault, r: &Reference, obs: &mut Obs) -> Ve
         (Res::Err(e), false) => out.push(v(format!("finish-err-without-failure|{}", fname), format!("finish returned {} ({}) although the sink never failed ({:?})", e.variant, e.detail, fault))),
         (Res::Panic { .. }, _) | (Res::Skipped, _) => {}
         (_, true) => out.push(v(format!("finish-ok-despite-failure|{}", fname), format!("finish returned {} although the sink delivered a fatal result ({:?})", fr.brief(), fault))),
+    }
+    if fatal && matches!(fr, Res::Err(_)) {
+        for (i, res) in ex.results.iter().enumerate().skip(r.finish_idx + 1) {
+            if res.is_ok() && h.ops[i].is_finish() {
+                out.push(v(
+                    format!("later-finish-reports-success-after-failure|{}|{}", fname, h.ops[i].brief().trim()),
+                    format!("finish #{} failed on the sink error, but the later attempt #{} ({}) returned Ok although the sink holds an incomplete file ({:?})", r.finish_idx, i, h.ops[i].brief(), fault),
+                ));
+                break;
+            }
+        }
     }
     // accepted bytes are a prefix of the fault-free file
     if bytes.len() > r.bytes.len() || bytes[..] != r.bytes[..bytes.len()] {
